@@ -1,6 +1,7 @@
 package engine
 
 import (
+	"bytes"
 	"errors"
 	"fmt"
 	"io"
@@ -550,6 +551,10 @@ func (x *run) runCR(idx int, cs *ClientState) {
 	if len(sizes) == 0 {
 		sizes = []int{4096}
 	}
+	var exact []int
+	if c.Exact {
+		exact = x.exactSizes(c, input)
+	}
 	maxCalls := c.MaxCalls
 	if maxCalls == 0 {
 		maxCalls = 64 + 40*(len(input)+1)
@@ -562,6 +567,9 @@ func (x *run) runCR(idx int, cs *ClientState) {
 	var err error
 	for i := 0; i < maxCalls; i++ {
 		sz := sizes[k%len(sizes)]
+		if i < len(exact) {
+			sz = exact[i]
+		}
 		k++
 		if cap(buf) < sz {
 			buf = make([]byte, sz)
@@ -608,9 +616,68 @@ func (x *run) runCR(idx int, cs *ClientState) {
 	out.Finished = true
 }
 
+// exactSizes derives Read buffer sizes from the structure of the frame the
+// compressing reader will emit for this input and these options: buffers that
+// end exactly on, one byte before or one byte after the boundaries between
+// header, blocks and trailer (the states of the hand-written overflow buffer).
+func (x *run) exactSizes(c *plan.CScript, input []byte) []int {
+	zr := lz4.NewCompressingReader(io.NopCloser(bytes.NewReader(input)))
+	opts := x.wopts(c.Opts, len(input))
+	if c.Opts.Default {
+		opts = nil
+	}
+	if zr.Apply(opts...) != nil {
+		return nil
+	}
+	frame, err := io.ReadAll(zr)
+	if err != nil {
+		return nil
+	}
+	f := ref.Parse(frame, ref.ParseOpt{})
+	var bounds []int
+	for _, fd := range f.Fields {
+		switch fd.Kind {
+		case "hc", "bsum", "endmark", "csum":
+			bounds = append(bounds, fd.Off+fd.Len)
+		case "bdata":
+			if !f.BlockSum {
+				bounds = append(bounds, fd.Off+fd.Len)
+			}
+		}
+	}
+	r := plan.NewRand(plan.Mix(c.ExactSeed, 0xe4ac7))
+	var out []int
+	pos := 0
+	for bi := 0; bi < len(bounds) && len(out) < 4096; {
+		b := bounds[bi]
+		if b <= pos {
+			bi++
+			continue
+		}
+		sz := b - pos
+		switch r.Pick(50, 15, 15, 20) {
+		case 1:
+			if sz > 1 {
+				sz--
+			}
+		case 2:
+			sz++
+		case 3:
+			if bi+1 < len(bounds) {
+				sz = bounds[bi+1] - pos
+			}
+		}
+		out = append(out, sz)
+		pos += sz
+	}
+	return out
+}
+
 func (x *run) runBlocks(idx int, cs *ClientState) {
 	bs := &x.p.Blocks[idx]
 	out := x.out.B[idx]
+	hcObjs := []*lz4.CompressorHC{{}, {}, {}}
+	fastObjs := []*lz4.Compressor{{}, {}, {}}
 	for _, c := range bs.Calls {
 		src := x.inputs[c.In]
 		lo, hi := c.Off, c.Off+c.Len
@@ -628,9 +695,16 @@ func (x *run) runBlocks(idx int, cs *ClientState) {
 		dst := make([]byte, dl)
 		var n int
 		var err error
-		if c.HC {
+		switch {
+		case c.HC && c.Obj > 0:
+			o := hcObjs[c.Obj%len(hcObjs)]
+			o.Level = lz4.CompressionLevel(c.Depth)
+			n, err = o.CompressBlock(src, dst)
+		case c.HC:
 			n, err = lz4.CompressBlockHC(src, dst, lz4.CompressionLevel(c.Depth), nil, nil)
-		} else {
+		case c.Obj > 0:
+			n, err = fastObjs[c.Obj%len(fastObjs)].CompressBlock(src, dst)
+		default:
 			n, err = lz4.CompressBlock(src, dst, nil)
 		}
 		if n < 0 || n > len(dst) {
